@@ -261,11 +261,20 @@ type C07Case struct {
 	// MultiOut: shape 3 whose last converter returns one named result per
 	// parameter
 	MultiOut bool `json:"multiOut,omitempty"`
+	// Variant of shapes 5 and 6 (0 = the basic one), see the generators.
+	Variant int `json:"variant,omitempty"`
+	// CtxType (+1; 0 = none): a type-only "context" input of the multi-input
+	// converter that is not its data argument.
+	CtxType int `json:"ctxType,omitempty"`
 }
 
 // traceToInput follows a value back through single-input converter
 // executions to the caller-supplied token it was converted from.
-func traceToInput(w *engine.World, evs []engine.Event, tok int) (int, bool) {
+func traceToInput(w *engine.World, evs []engine.Event, tok int, ctxType ...int) (int, bool) {
+	ctx := -1
+	if len(ctxType) > 0 {
+		ctx = ctxType[0] - 1
+	}
 	for hops := 0; hops < 16; hops++ {
 		org, ok := w.Origin(tok)
 		if !ok {
@@ -283,7 +292,7 @@ func traceToInput(w *engine.World, evs []engine.Event, tok int) (int, bool) {
 					// one that is not the named option)
 					di = -1
 					for i, a := range ev.Args {
-						if !strings.HasPrefix(a.L.Name, "q") {
+						if !strings.HasPrefix(a.L.Name, "q") && !(ctx >= 0 && !a.L.Named() && a.L.Type == ctx) {
 							di = i
 						}
 					}
@@ -313,6 +322,9 @@ func evalC07(c *engine.Case) engine.Verdict {
 	sc := c.Sc
 	engine.ScenarioClasses(&v, sc)
 	v.Class(fmt.Sprintf("shape=%d", x.Shape))
+	if x.Variant > 0 {
+		v.Class(fmt.Sprintf("shape=%d/variant=%d", x.Shape, x.Variant))
+	}
 	if x.Bystander != 0 {
 		v.Class("bystander-converter-takes-the-name")
 	}
@@ -363,22 +375,14 @@ func evalC07(c *engine.Case) engine.Verdict {
 					if !converted {
 						continue
 					}
-					src, ok := traceToInput(ws[oi], o.Events, a.Tok)
+					src, ok := traceToInput(ws[oi], o.Events, a.Tok, x.CtxType)
 					if !ok {
 						v.Failf("parameter %s: cannot trace #%d back to a supplied value", a.L, a.Tok)
 					} else if src != want {
 						org, _ := ws[oi].Origin(src)
 						v.Failf("parameter %s was converted from #%d (supplied as %s); the supplied value with the parameter's name is #%d", a.L, src, org.L, want)
-						// two open findings, identified by the SHAPE of the case
-						// (known-findings.json): only this kind of failure -- the
-						// wrong one of the supplied same-typed values was converted
-						// -- is covered, anything else stays a violation
-						switch x.Shape {
-						case 5:
-							v.Known = "KF-C07-1"
-						case 6:
-							v.Known = "KF-C07-2"
-						}
+						// (shapes 5 and 6 were open findings KF-C07-1/2 until the
+						// repairs D45 and D46; a fixed finding suppresses nothing)
 					}
 				}
 			}
@@ -510,20 +514,50 @@ func genC07Shared(g engine.G) *engine.Case {
 	t0, t1, tq := perm[0], perm[1], perm[2]
 	sc := &engine.Scenario{}
 	x := C07Case{Shape: 5, FirstConv: 1, ParamInput: map[string]int{}}
+	// variant 1: ONE named parameter, and the stale value comes from a
+	// type-only parameter of the source type that the target takes itself;
+	// variant 2: the shared converter is the second of two hops and its other
+	// input is a type-only "context" value (positional form possible)
+	x.Variant = g.Int(0, 2)
 	np := g.Int(2, 3)
+	if x.Variant == 1 {
+		np = 1
+	}
 	for i := 0; i < np; i++ {
 		sc.Inputs = append(sc.Inputs, engine.Input{L: engine.Label{Name: names[i], Type: t0, Dyn: t0}, Tok: i + 1})
 		x.ParamInput[names[i]] = i + 1
 		sc.Target.In = append(sc.Target.In, engine.Label{Name: names[i], Type: t1, Dyn: t1})
 	}
-	x.NameInput = 1
-	sc.Inputs = append(sc.Inputs, engine.Input{L: engine.Label{Name: "q", Type: tq, Dyn: tq}, Tok: 9})
-	sc.Inputs = rapidPerm(g, sc.Inputs)
-	in := []engine.Label{{Name: "q", Type: tq, Dyn: tq}, {Type: t0, Dyn: t0}}
-	if g.Bool() {
-		in[0], in[1] = in[1], in[0]
+	if x.Variant == 1 {
+		// competing same-typed values under other names, and the target's own
+		// type-only parameter of the source type (any of them will do for it)
+		for i := 1; i <= g.Int(1, 2); i++ {
+			sc.Inputs = append(sc.Inputs, engine.Input{L: engine.Label{Name: names[i], Type: t0, Dyn: t0}, Tok: i + 1})
+		}
+		sc.Target.In = append(sc.Target.In, engine.Label{Type: t0, Dyn: t0})
 	}
-	sc.Convs = []engine.FuncSpec{{ID: 1, In: in, InForm: engine.Pick(g, []string{engine.FormStruct, engine.FormPtr}), Out: []engine.Label{{Type: t1, Dyn: t1}}, OutForm: engine.GenForm(g)}}
+	x.NameInput = 1
+	inForm := engine.Pick(g, []string{engine.FormStruct, engine.FormPtr})
+	if x.Variant == 2 {
+		tm := perm[3]
+		sc.Inputs = append(sc.Inputs, engine.Input{L: engine.Label{Type: tq, Dyn: tq}, Tok: 9})
+		in := []engine.Label{{Type: tq, Dyn: tq}, {Type: tm, Dyn: tm}}
+		if g.Bool() {
+			in[0], in[1] = in[1], in[0]
+		}
+		x.CtxType = tq + 1
+		sc.Convs = rapidPerm(g, []engine.FuncSpec{
+			{ID: 1, In: []engine.Label{{Type: t0, Dyn: t0}}, InForm: engine.GenForm(g), Out: []engine.Label{{Type: tm, Dyn: tm}}, OutForm: engine.GenForm(g)},
+			{ID: 2, In: in, InForm: engine.GenForm(g), Out: []engine.Label{{Type: t1, Dyn: t1}}, OutForm: engine.GenForm(g)}})
+	} else {
+		sc.Inputs = append(sc.Inputs, engine.Input{L: engine.Label{Name: "q", Type: tq, Dyn: tq}, Tok: 9})
+		in := []engine.Label{{Name: "q", Type: tq, Dyn: tq}, {Type: t0, Dyn: t0}}
+		if g.Bool() {
+			in[0], in[1] = in[1], in[0]
+		}
+		sc.Convs = []engine.FuncSpec{{ID: 1, In: in, InForm: inForm, Out: []engine.Label{{Type: t1, Dyn: t1}}, OutForm: engine.GenForm(g)}}
+	}
+	sc.Inputs = rapidPerm(g, sc.Inputs)
 	sc.Target.ID, sc.Target.InForm, sc.Target.OutForm = engine.TargetID, engine.Pick(g, []string{engine.FormStruct, engine.FormPtr}), engine.FormPos
 	sc.Target.In = rapidPerm(g, sc.Target.In)
 	c := &engine.Case{Sc: sc, Reps: 4}
@@ -554,7 +588,24 @@ func genC07Nested(g engine.G) *engine.Case {
 		in2[0], in2[1] = in2[1], in2[0]
 	}
 	conv2 := engine.FuncSpec{ID: 2, In: in2, InForm: engine.Pick(g, []string{engine.FormStruct, engine.FormPtr}), Out: []engine.Label{{Type: t1, Dyn: t1}}, OutForm: engine.GenForm(g)}
-	sc.Convs = rapidPerm(g, []engine.FuncSpec{conv1, conv2})
+	convs := []engine.FuncSpec{conv1, conv2}
+	if g.Pct(40) {
+		// variant 1, one level more: the second converter's result is an
+		// intermediate value too, taken BY NAME (next to another named
+		// option) by a third converter: two named inputs lie between the
+		// parameter and the type-only input that its name should decide
+		x.Variant = 1
+		tb, tq2 := perm[4], perm[5]
+		convs[1].Out = []engine.Label{{Type: tb, Dyn: tb}}
+		in3 := []engine.Label{{Name: "q2", Type: tq2, Dyn: tq2}, {Name: "y", Type: tb, Dyn: tb}}
+		if g.Bool() {
+			in3[0], in3[1] = in3[1], in3[0]
+		}
+		convs = append(convs, engine.FuncSpec{ID: 3, In: in3, InForm: engine.Pick(g, []string{engine.FormStruct, engine.FormPtr}), Out: []engine.Label{{Type: t1, Dyn: t1}}, OutForm: engine.GenForm(g)})
+		sc.Inputs = append(sc.Inputs, engine.Input{L: engine.Label{Name: "q2", Type: tq2, Dyn: tq2}, Tok: 10})
+		sc.Inputs = rapidPerm(g, sc.Inputs)
+	}
+	sc.Convs = rapidPerm(g, convs)
 	sc.Target = engine.FuncSpec{ID: engine.TargetID, In: []engine.Label{{Name: n, Type: t1, Dyn: t1}}, InForm: engine.Pick(g, []string{engine.FormStruct, engine.FormPtr}), OutForm: engine.FormPos}
 	c := &engine.Case{Sc: sc, Reps: 6}
 	c.SetX(&x)
@@ -563,11 +614,11 @@ func genC07Nested(g engine.G) *engine.Case {
 
 func genC07(g engine.G) *engine.Case {
 	switch k := g.Int(0, 99); {
-	case k < 15:
+	case k < 12:
 		return genC07Multi(g)
-	case k < 20:
+	case k < 21:
 		return genC07Shared(g)
-	case k < 25:
+	case k < 30:
 		return genC07Nested(g)
 	}
 	names := []string{"a", "b", "cd", "ef"}
